@@ -12,7 +12,7 @@ func init() {
 		Rule: "case = one scenario of the side-effect corpus (every wrapped activity type at inbox and outbox, delivery, forwarding, GET) or a generated addressing variant; " +
 			"per case: the fault-free run plus one run per fallible seam call (Database, Transport, NewTransport, callbacks) with that call failing; the generated part (400 cases in quick, time-boxed in thorough) adds random addressing (same collection twice, collection also as object/target), structure-aware mutations of corpus bodies (id-less objects, emptied members), fault pairs and two concurrent requests. The single-fault space of the corpus is swept completely. " +
 			"A run is non-trivial if it made more than 3 seam calls; distinct = distinct hash of the (task, seam kind, fault, result class) event sequence.",
-		QuickCases: len(cp) + 400,
+		QuickCases: len(cp) + 1000,
 		Exhaustive: false,
 		Drive: func(c *DriveCtx, r *Rng, k int) {
 			if k < len(cp) {
